@@ -99,9 +99,13 @@ def run(ctx: Context) -> None:
                 ok = (isinstance(nodes, ast.Subscript) and isinstance(nodes.slice, ast.Tuple) and isinstance(nodes.slice.elts[1], ast.Slice)
                       and nodes.slice.elts[1].lower is None and nodes.slice.elts[1].step is None)
         ctx.check('R06.2', ok, "UGRID points are (node_x[n], node_y[n]) for a face's nodes in listed order", ug, sp[0], construct=f"coords = {detail[:120]}")
-        sizes = [n for n in walk_no_nested(ug.node) if isinstance(n, ast.Assign) and norm_text(n.targets[0]) == 'polygon_sizes']
-        ok = bool(sizes) and norm_text(sizes[0].value).replace(' ', '') in ('numpy.sum(~numpy.ma.getmaskarray(face_node),axis=1)',)
-        ctx.check('R06.2', ok, "a face's vertex count is the number of unmasked entries in its row", ug, sizes[0] if sizes else ug.node)
+        from ..pattern import Matcher
+        m = Matcher(ctx, ug)
+        size_st = m.stmt('$sizes = numpy.sum(~numpy.ma.getmaskarray($face_node), axis=1)')
+        fn_use = next((n for n in ast.walk(size_st) if isinstance(n, ast.Name) and n.id == m.name('face_node') and isinstance(n.ctx, ast.Load)), None) if size_st is not None else None
+        ok = fn_use is not None and 'face_node_array' in repr(flow.canon(fn_use)) \
+            and m.has('$rows = numpy.flatnonzero($sizes == $size)')
+        ctx.check('R06.2', ok, "a face's vertex count is the number of unmasked entries in its row of the face-node table, and faces are grouped by that count", ug, size_st or ug.node)
 
     # ------------------------------------------------------------------ R06.3 bounds
     with ctx.section('R06.3 bounds'):
